@@ -394,6 +394,32 @@ def run(ctx: Ctx):
                            "sel": r_["sel"], "fault": r_["fault"], "chunk": r_["chunk"], "record": r_,
                            "what": f"{v['clause']}: stream {r_['stream']} cut at byte {r_['cut']} ({inside}), "
                                    f"{'SELECTED' if r_['sel'] else 'NOT SELECTED'}, fault {r_['fault']}; idle={r_.get('idle')}"})
+    # ---- sends in flight when the peer goes away: the close sequence must still finish (hand-over model: SendHandover)
+    from . import c10, sendq_model
+    sendq_model.check(ctx, wd, "close")
+    mitems = [it for it in c10.multi_items(random.Random(ctx.seed + 909), 48 if ctx.quick else 480, 1) if it["stop_at"] is not None]
+    mrecs = [r_ for batch in pmap(c10.run_proto_multi_batch, chunks(mitems, 4)) for r_ in batch]
+    for r_ in mrecs:
+        if r_.get("errors") and "Machinery" in str(r_["errors"]):
+            raise Machinery(str(r_["errors"]))
+    ctx.traces += len(mrecs)
+    ctx.evaluations += len(mrecs)
+    ctx.extra["peer_left_with_sends_in_flight"] = len(mrecs)
+    sendq_model.validate(ctx, wd, [r_ for r_ in mrecs if r_["outcome"] == "done" and not r_.get("errors")], "c09")
+    shown = 0
+    for r_ in mrecs:
+        clause = None
+        if r_.get("state_after_peer_close") not in (None, "NOT_CONNECTED") or (r_["outcome"] != "done" and "state_after_peer_close" not in r_):
+            clause = "link-loss-not-NOT_CONNECTED"
+        elif r_["outcome"] != "done" or not r_.get("disable_returned", False):
+            clause = "disable-did-not-return"
+        if clause and shown < 8:
+            shown += 1
+            ctx.violation({"check": "sends-in-flight", "clause": clause, "senders": len(r_["bodies"]), "bodies": r_["bodies"], "then": r_["then"],
+                           "sched": [r_["seed"], r_["policy"], r_.get("lag")], "state": r_.get("state_after_peer_close"), "blocked": r_.get("blocked"),
+                           "outcome": r_["outcome"],
+                           "what": f"{len(r_['bodies'])} thread(s) sending {r_['bodies']} bytes, {r_['then']}: {clause} "
+                                   f"(session {r_.get('state_after_peer_close')}, run {r_['outcome']}); blocked: {(r_.get('blocked') or [])[:2]}"})
     # ---- the real TcpServerConnection / TcpClientConnection lifecycle on the simulated socket layer
     titems = []
     tid = 0
